@@ -718,3 +718,17 @@ Theorem C03_glue_rs_matches_model :
   (forall dbg w a b, Glue.I_overflowing_rem dbg w a b = I_overflowing_rem dbg w a b).
 Proof. exact glue_div_matches_model. Qed.
 Print Assumptions C03_glue_rs_matches_model.
+(* ---- tie to the source: div_rem_digit and last_digit_index REGENERATED from /repo/src/buint/checked.rs and
+   /repo/src/buint/mod.rs on every run (Generated/Loops.v, tools/rs2v_loops.py; control-flow vocabulary Model/Imp.v)
+   compute exactly the model's functions: with an iteration budget of at least N they neither panic nor run out of
+   budget. ---- *)
+From Bnum.Model Require Import Imp.
+From Bnum.Generated Require Import Loops.
+From Bnum.Proofs Require Import LoopsTieDiv.
+Theorem C03_loops_rs_match_model w : 0 < w ->
+  (forall n a rhs fuel, wf w n a -> (n <= fuel)%nat ->
+     Loops.div_rem_digit w (Z.of_nat n) fuel a rhs = Done (Div.div_rem_digit w a rhs)) /\
+  (forall n a fuel, wf w n a -> (n <= fuel)%nat ->
+     Loops.last_digit_index w (Z.of_nat n) fuel a = Done (Z.of_nat (Div.last_digit_index a))).
+Proof. exact (loops_Div_match_model w). Qed.
+Print Assumptions C03_loops_rs_match_model.
